@@ -1,6 +1,6 @@
 """shared driver of the derive-level checks (C01-C06, C13): random type shapes compiled against /repo's derive macro,
 observations compared with the extracted derive model, and the oracles of each property on the implementation's output."""
-import os, sys, random, json, shutil
+import os, sys, random, json, shutil, re
 sys.path.insert(0, os.path.dirname(os.path.abspath(__file__)))
 from vlib import *
 import gen_derive as G
@@ -84,9 +84,11 @@ def build_dg(res, shapes, features=('debug_diffs',), tag='dg', setters=False, ta
     for f in ('main.rs', 'support.rs'):
         put(os.path.join(crate, 'src', f), open(os.path.join(DG, 'src', f)).read())
     put(os.path.join(crate, 'src', 'gen.rs'), G.rust_module(shapes, setters=setters))
-    put(os.path.join(crate, 'Cargo.toml'), open(os.path.join(DG, 'Cargo.toml')).read())
+    # a package name of its own per crate: cargo mixes up the freshness of equally named packages that share a target directory
+    pkg = re.sub(r'[^a-z0-9_]', '_', tag.lower())
+    put(os.path.join(crate, 'Cargo.toml'), open(os.path.join(DG, 'Cargo.toml')).read().replace('name = "dg"', f'name = "{pkg}"'))
     FMAP = {'debug_diffs': 'dbg', 'nanoserde': 'ns', 'serde': 'sd', 'generated_setters': 'gs', 'rustc_hash': 'rh', 'debug_asserts': 'da'}
-    return cargo_build(res, crate, 'dg', features=[FMAP[x] for x in features], target_dir=target_dir)
+    return cargo_build(res, crate, pkg, features=[FMAP[x] for x in features], target_dir=target_dir)
 
 def canon_impl_lines(lines, shapes_by_id, meta):
     """implementation output -> canonical observation lines (diff Debug text parsed and canonicalised by shape)"""
